@@ -38,7 +38,7 @@ CHUNK = 20
 STEP_KEYS = ("steps",)
 
 QUICK_LENGTHS = (list(range(0, 97)) + list(range(690, 790, 3)) + list(range(1380, 1560, 3)) + list(range(2160, 2330, 5))
-                 + [3000, 4096, 10000, 65536])
+                 + [3000, 4096, 10000, 65536] + [49000, 49152, 50000, 70000, 100000])
 THOROUGH_LENGTHS = list(range(0, 3201)) + [4096, 10000, 65536, 65537, 1 << 20]
 
 
@@ -72,7 +72,10 @@ def generate(seed, tier, index):
     frag = rng.choice(["fixed:1024", "fixed:1024", "random", "whole", "coalesce", "fixed:7"] + ([] if L > 3000 else ["fixed:1"]))
     raw = rng.sample(["unset", "Never", "Also", "Only"], rng.randint(1, 3))
     steps = [{"op": "down", "len": L, "pattern": rng.choice(["random", "random", "zeros", "ff"]), "format": rng.choice([".fits", ".jpg", "", ".x\xe9", ".fits.z"]),
-              "other_unset": rng.random() < 0.5}]
+              "other_unset": rng.random() < 0.5,
+              # more traffic for the same connections is routed in the same loop iteration as the BLOB, i.e. while its
+              # write/drain is still in flight (what a camera streaming frames plus status updates does)
+              "burst": rng.random() < 0.5}]
     up_len = L if rng.random() < 0.5 else rng.choice([0, 1, 100, 1000, 1395, 1400, 1500, 3000])
     if big:
         up_len = rng.choice([0, 100, 1000])
@@ -198,6 +201,13 @@ def execute(scen):
                 if res.error:
                     viol.append({"clause": "C08.down", "detail": f"publishing raised {res.error}; {ctx}", "facts": facts})
                     break
+                burst_val = None
+                if st.get("burst"):
+                    serial[0] += 1
+                    burst_val = f"burst{serial[0]}"
+                    apply_step(stack, {"op": "d_assign", "dev": "CAM", "vec": "TXT", "el": "T0", "value": burst_val})
+                    apply_step(stack, {"op": "d_assign", "dev": "CAM", "vec": "IMG", "el": "B1", "value": {"blob_hex": "0102", "format": ".q"}})
+                    probes["traffic_routed_while_blob_in_flight"] = probes.get("traffic_routed_while_blob_in_flight", 0) + 1
                 sim.settle()
                 if watchdog.S.tripped:
                     viol.append({"clause": "C08.hang", "detail": f"watchdog {watchdog.S.tripped}; {ctx}", "facts": facts})
@@ -236,6 +246,8 @@ def execute(scen):
                             break
                     else:
                         mine = [m for m in msgs if "B0" in m]
+                        if burst_val is not None and len(mine) == 2 and mine[0]["B0"] == mine[1]["B0"]:
+                            mine = mine[:1]  # the follow-up BLOB update of the sibling element repeats B0
                         if len(mine) != 1:
                             viol.append({"clause": "C08.down", "detail": f"raw peer ({pol}) received {len(mine)} setBLOBVector messages for one update; {ctx}", "facts": dict(facts, policy=pol)})
                             break
